@@ -50,6 +50,23 @@ impl Pred {
     }
 }
 
+impl Pred {
+    fn render_tag(&self) -> String {
+        match self {
+            Pred::Gt(c) => format!("#T['int] {{ =T[x], [x, {c}] __integer_compare__ =1 }}"),
+            Pred::Eq(c) => format!("#T['int] {{ =T[{c}] }}"),
+            Pred::Even => "#T['int] { =T[x], [x, 2] __integer_modulo__ =0 }".into(),
+            Pred::Never => "#T['int] { [] }".into(),
+            Pred::Always => "#T['int] { Ok }".into(),
+            Pred::AlwaysValue => "#T['int] { 99 }".into(),
+        }
+    }
+}
+
+pub fn is_tag(m: i64) -> bool {
+    (64..100).contains(&m)
+}
+
 #[derive(Clone, Debug, PartialEq)]
 pub enum Src {
     /// awaited earlier by the subject: guaranteed finished; yields 1000 + i
@@ -62,6 +79,10 @@ pub enum Src {
     AwaitFail(u16),
     RecvInt,
     RecvFilter(Pred),
+    /// typed receive of T['int] messages (model value 64 + x)
+    RecvTag,
+    /// filtered receive of T['int] messages; the predicate is on the inner integer
+    RecvTagFilter(Pred),
     /// a type nothing ever sends
     RecvBin,
     Timeout(u8),
@@ -89,7 +110,9 @@ fn src() -> impl Strategy<Value = Src> {
         2 => Just(Src::AwaitNever),
         3 => (0u8..3, work.clone()).prop_map(|(i, w)| Src::AwaitMaybe(i, w)),
         3 => Just(Src::RecvInt),
-        4 => pred.prop_map(Src::RecvFilter),
+        4 => pred.clone().prop_map(Src::RecvFilter),
+        2 => Just(Src::RecvTag),
+        3 => pred.prop_map(Src::RecvTagFilter),
         1 => Just(Src::RecvBin),
         3 => prop_oneof![2 => Just(0u8), 3 => 1u8..60].prop_map(Src::Timeout),
     ]
@@ -98,9 +121,10 @@ fn src() -> impl Strategy<Value = Src> {
 pub fn scn() -> impl Strategy<Value = Scn> {
     let work = prop_oneof![2 => 0u16..30, 2 => 30u16..600];
     let sel = prop::collection::vec(src(), 1..5);
-    let multi = (prop::collection::vec(-2i8..12, 0..5), prop::collection::vec(sel, 1..4), prop::collection::vec((1u8..6, work.clone()), 0..3)).prop_map(|(preload, selects, late)| Scn { preload, selects, late });
+    let item = prop_oneof![3 => -2i8..12, 2 => 64i8..76];
+    let multi = (prop::collection::vec(item.clone(), 0..6), prop::collection::vec(sel, 1..4), prop::collection::vec((1u8..6, work.clone()), 0..3)).prop_map(|(preload, selects, late)| Scn { preload, selects, late });
     // single-select scenarios that may contain a failing process
-    let failing = (prop::collection::vec(-2i8..12, 0..3), prop::collection::vec(src(), 0..3), work, any::<u8>()).prop_map(|(preload, mut s, w, pos)| {
+    let failing = (prop::collection::vec(item, 0..3), prop::collection::vec(src(), 0..3), work, any::<u8>()).prop_map(|(preload, mut s, w, pos)| {
         let at = (pos as usize) % (s.len() + 1);
         s.insert(at, Src::AwaitFail(w));
         Scn { preload, selects: vec![s], late: vec![] }
@@ -114,8 +138,9 @@ pub fn strategy(n_cfgs: usize) -> impl Strategy<Value = Case> {
 }
 
 const PRELUDE: &str = "\
-'log = Nil | Cons['int, ^],
-'mb = 'int | 'bin | Mark,
+'item = 'int | T['int],
+'log = Nil | Cons['item, ^],
+'mb = 'int | 'bin | Mark | T['int],
 loop = #['int, 'int] { =[n, acc], { | [n, 0] __integer_compare__ =0 => acc | [[n, 1] __integer_subtract__, [acc, n] __integer_add__] ^ } },
 w = #'int { [~, 0] loop },
 never = #{ !#'bin },
@@ -123,15 +148,19 @@ quick = #'int { $ },
 slow = #['int, 'int] { =[v, n], n w, v },
 bad = #'int { =n, n w, [1, 0] __integer_divide__ },
 lsend = #[(@'mb), 'int, 'int, 'int] { =[dst, v, k, n], { | [k, 0] __integer_compare__ =0 => Sent | { n w, v dst, [&dst, [v, 1] __integer_add__, [k, 1] __integer_subtract__, n] ^ } } },
-drain = #'log { =acc, ! [#'int, 50] { | =[] => acc | =('int)x => Cons[x, acc] ^ } },
+drain = #'log { =acc, ! [#'item, 50] { | =[] => acc | =('item)x => Cons[x, acc] ^ } },
 me = &.";
 
 pub fn render(s: &Scn) -> String {
     let mut lines = vec![PRELUDE.to_string()];
     // keep the receive type stable whatever the sources are
-    lines.push("! [#'bin, #Mark, #'int { [] }, 0] Ok".to_string());
+    lines.push("! [#'bin, #Mark, #'int { [] }, #T['int] { [] }, 0] Ok".to_string());
     for x in &s.preload {
-        lines.push(format!("{x} ."));
+        if is_tag(*x as i64) {
+            lines.push(format!("T[{}] .", *x as i64 - 64));
+        } else {
+            lines.push(format!("{x} ."));
+        }
     }
     lines.push("Mark .".to_string());
     lines.push("! [#Mark]".to_string());
@@ -174,6 +203,8 @@ pub fn render(s: &Scn) -> String {
                 Src::AwaitFail(_) => format!("f{si}_{k}"),
                 Src::RecvInt => "#'int".to_string(),
                 Src::RecvFilter(p) => p.render(),
+                Src::RecvTag => "#T['int]".to_string(),
+                Src::RecvTagFilter(p) => p.render_tag(),
                 Src::RecvBin => "#'bin".to_string(),
                 Src::Timeout(d) => format!("{d}"),
             })
@@ -238,6 +269,10 @@ pub fn judge(s: &Scn, result: &Result<HVal, quiver_core::error::Error>, clock: u
         let got: Option<i64> = match v {
             x if x.is_nil() => None,
             HVal::Int(i) => Some(i.to_i64().unwrap_or(i64::MIN)),
+            HVal::Tuple(Some(n), f) if n == "T" && f.len() == 1 && matches!(&f[0].1, HVal::Int(_)) => match &f[0].1 {
+                HVal::Int(i) => Some(64 + i.to_i64().unwrap_or(i64::MIN)),
+                _ => None,
+            },
             other => return Err(format!("select {si} yielded {other}, which no source can yield (a filter's value instead of the message?)")),
         };
         let mut explained = false;
@@ -257,17 +292,19 @@ pub fn judge(s: &Scn, result: &Result<HVal, quiver_core::error::Error>, clock: u
                 (Src::AwaitMaybe(i, _), Some(x)) => x == maybe_value(si, k, *i),
                 (Src::RecvInt, Some(x)) => {
                     // earliest int in the mailbox: the first remaining preloaded one, else a late one
-                    match remaining.first() {
+                    match remaining.iter().find(|m| !is_tag(**m)) {
                         Some(first) => x == *first,
                         None => late_unconsumed.contains(&x),
                     }
                 }
                 (Src::RecvFilter(p), Some(x)) => {
-                    match remaining.iter().find(|m| p.holds(**m)) {
+                    match remaining.iter().find(|m| !is_tag(**m) && p.holds(**m)) {
                         Some(first) => x == *first,
                         None => late_unconsumed.contains(&x) && p.holds(x),
                     }
                 }
+                (Src::RecvTag, Some(x)) => remaining.iter().find(|m| is_tag(**m)).is_some_and(|first| x == *first),
+                (Src::RecvTagFilter(p), Some(x)) => remaining.iter().find(|m| is_tag(**m) && p.holds(**m - 64)).is_some_and(|first| x == *first),
                 _ => false,
             };
             if ok {
@@ -275,7 +312,7 @@ pub fn judge(s: &Scn, result: &Result<HVal, quiver_core::error::Error>, clock: u
                 // account for what was consumed
                 if let Some(x) = got {
                     if let Some(pos) = remaining.iter().position(|m| *m == x) {
-                        if matches!(src, Src::RecvInt | Src::RecvFilter(_)) {
+                        if matches!(src, Src::RecvInt | Src::RecvFilter(_) | Src::RecvTag | Src::RecvTagFilter(_)) {
                             remaining.remove(pos);
                         }
                     } else if let Some(pos) = late_unconsumed.iter().position(|m| *m == x)
@@ -316,8 +353,14 @@ pub fn judge(s: &Scn, result: &Result<HVal, quiver_core::error::Error>, clock: u
         match cur {
             HVal::Tuple(Some(n), f) if n == "Nil" && f.is_empty() => break,
             HVal::Tuple(Some(n), f) if n == "Cons" && f.len() == 2 => {
-                if let HVal::Int(i) = &f[0].1 {
-                    left.push(i.to_i64().unwrap_or(i64::MIN));
+                match &f[0].1 {
+                    HVal::Int(i) => left.push(i.to_i64().unwrap_or(i64::MIN)),
+                    HVal::Tuple(Some(n), tf) if n == "T" && tf.len() == 1 => {
+                        if let HVal::Int(i) = &tf[0].1 {
+                            left.push(64 + i.to_i64().unwrap_or(i64::MIN));
+                        }
+                    }
+                    other => return Err(format!("unexpected item {other} in the drained mailbox")),
                 }
                 cur = &f[1].1;
             }
@@ -347,13 +390,22 @@ fn first_guaranteed(sel: &[Src], remaining: &[i64]) -> Option<(usize, Option<i64
             Src::AwaitDone(i) => Ready::Now(Some(1000 + (*i as i64 % 3))),
             Src::AwaitNever | Src::RecvBin => Ready::Never,
             Src::AwaitMaybe(..) | Src::AwaitFail(_) => Ready::Maybe,
-            Src::RecvInt => match remaining.first() {
+            Src::RecvInt => match remaining.iter().find(|m| !is_tag(**m)) {
                 Some(x) => Ready::Now(Some(*x)),
                 None => Ready::Maybe,
             },
-            Src::RecvFilter(p) => match remaining.iter().find(|m| p.holds(**m)) {
+            Src::RecvFilter(p) => match remaining.iter().find(|m| !is_tag(**m) && p.holds(**m)) {
                 Some(x) => Ready::Now(Some(*x)),
                 None => Ready::Maybe,
+            },
+            // nobody sends T messages later, so a tag source is either ready now or never
+            Src::RecvTag => match remaining.iter().find(|m| is_tag(**m)) {
+                Some(x) => Ready::Now(Some(*x)),
+                None => Ready::Never,
+            },
+            Src::RecvTagFilter(p) => match remaining.iter().find(|m| is_tag(**m) && p.holds(**m - 64)) {
+                Some(x) => Ready::Now(Some(*x)),
+                None => Ready::Never,
             },
             // The statement bounds a timeout only from below ("no earlier than its duration after the
             // select started waiting"), so even a zero timeout is never *guaranteed* ready.
@@ -502,7 +554,8 @@ pub fn run(ctx: &Ctx) -> i32 {
                     for s in sel {
                         kinds.insert(match s {
                             Src::AwaitDone(_) | Src::AwaitNever | Src::AwaitMaybe(..) | Src::AwaitFail(_) => "await",
-                            Src::RecvInt | Src::RecvBin => "receive",
+                            Src::RecvInt | Src::RecvBin | Src::RecvTag => "receive",
+                            Src::RecvTagFilter(_) => "filter",
                             Src::RecvFilter(_) => "filter",
                             Src::Timeout(_) => "timeout",
                         });
@@ -515,6 +568,7 @@ pub fn run(ctx: &Ctx) -> i32 {
                             Src::AwaitFail(_) => stats.class("source:failing-process"),
                             Src::RecvFilter(Pred::AlwaysValue) => stats.class("filter-evaluates-to-a-value"),
                             Src::RecvFilter(_) => stats.class("source:filter"),
+                            Src::RecvTagFilter(_) => stats.class("source:filter-skipping-other-typed-messages"),
                             Src::Timeout(0) => stats.class("source:zero-timeout"),
                             Src::Timeout(_) => {
                                 raced = true;
@@ -579,7 +633,7 @@ pub fn run(ctx: &Ctx) -> i32 {
             "sources that become ready concurrently during the select impose no order among themselves (the inherent race); the oracle only forbids results from sources after the first one ready at the start".into(),
             "scenarios in which no source is certain to become ready are discarded (they would hang by design)".into(),
         ],
-        required_classes: vec!["source:finished-before-select", "source:process-finishing-during-select", "source:failing-process", "source:filter", "filter-evaluates-to-a-value", "source:zero-timeout", "source:positive-timeout", "late-senders"],
+        required_classes: vec!["source:finished-before-select", "source:process-finishing-during-select", "source:failing-process", "source:filter", "source:filter-skipping-other-typed-messages", "filter-evaluates-to-a-value", "source:zero-timeout", "source:positive-timeout", "late-senders"],
         started,
         technique: "proptest-generated select scenarios x schedules in the deterministic simulator; oracle = construction-based reference model of select (causally guaranteed readiness)",
     })
@@ -592,6 +646,8 @@ fn scn_to_json(s: &Scn) -> serde_json::Value {
         Src::AwaitMaybe(i, w) => json!({"maybe": [i, w]}),
         Src::AwaitFail(w) => json!({"fail": w}),
         Src::RecvInt => json!("int"),
+        Src::RecvTag => json!("tag"),
+        Src::RecvTagFilter(p) => json!({"tagfilter": format!("{p:?}")}),
         Src::RecvBin => json!("bin"),
         Src::Timeout(d) => json!({"timeout": d}),
         Src::RecvFilter(p) => match p {
@@ -612,12 +668,30 @@ fn scn_from_json(j: &serde_json::Value) -> Option<Scn> {
             return Some(match s {
                 "never" => Src::AwaitNever,
                 "int" => Src::RecvInt,
+                "tag" => Src::RecvTag,
                 "bin" => Src::RecvBin,
                 "even" => Src::RecvFilter(Pred::Even),
                 "fnever" => Src::RecvFilter(Pred::Never),
                 "always" => Src::RecvFilter(Pred::Always),
                 _ => Src::RecvFilter(Pred::AlwaysValue),
             });
+        }
+        if let Some(v) = x.get("tagfilter") {
+            let t = v.as_str()?;
+            let num = |t: &str| t.trim_matches(|c: char| !c.is_ascii_digit() && c != '-').parse::<i8>().ok();
+            return Some(Src::RecvTagFilter(if t.starts_with("Gt") {
+                Pred::Gt(num(t)?)
+            } else if t.starts_with("Eq") {
+                Pred::Eq(num(t)?)
+            } else if t == "Even" {
+                Pred::Even
+            } else if t == "Never" {
+                Pred::Never
+            } else if t == "Always" {
+                Pred::Always
+            } else {
+                Pred::AlwaysValue
+            }));
         }
         if let Some(v) = x.get("done") {
             return Some(Src::AwaitDone(v.as_u64()? as u8));
